@@ -4,6 +4,11 @@ from typing import Optional
 
 
 class Device(ABC):
+    # a device that was given no element id has the id None (the property
+    # below must be readable on every device, e.g. by a Hub comparing it with
+    # the sender of a packet)
+    _element_id = None
+
     def put(self, packet):
         """Put packet in this device.
         This function will be called in previous hop.
